@@ -1369,3 +1369,65 @@ Proof.
   rewrite (asm_curr_hf _ _ _ _ _ _ _ _ Hm3), (asm_curr_inf _ _ _ _ _ _ _ _ Hm3). split; lia.
 Qed.
 End CrossoverAuthentic.
+
+(** * reversal keeps the chaining state: same hop, same SegID and timestamp, CONS_DIR negated *)
+Lemma toggle_fields f :
+  length f = 8%nat -> bytes_ok f = true ->
+  if_segid (toggle_cons_dir f) = if_segid f /\ if_ts (toggle_cons_dir f) = if_ts f
+  /\ if_cons_dir (toggle_cons_dir f) = negb (if_cons_dir f).
+Proof.
+  intros Hl Hb. destruct f as [|x r]; [discriminate|].
+  assert (Hx : x < 256).
+  { unfold bytes_ok in Hb. cbn [forallb] in Hb. apply andb_prop in Hb as [Hx _]. unfold byte_ok in Hx. lia. }
+  unfold toggle_cons_dir, if_set_flags, if_flags, set_byte, set_range, byte.
+  cbn [nth firstn skipn app length Nat.add].
+  refine (conj eq_refl (conj eq_refl _)).
+  unfold if_cons_dir, if_flags, byte. cbn [nth]. change FLAG_CONS_DIR with 1.
+  rewrite (N.mod_small (N.lxor x 1) 256) by (apply lxor_1_lt; exact Hx).
+  rewrite N.lxor_spec. change (N.testbit 1 0) with true. now destruct (N.testbit x 0).
+Qed.
+
+Lemma reverse_keeps_chaining_state ci ch rsv s0 s1 s2 IF HF b' :
+  meta_ok ci ch rsv s0 s1 s2 -> shaped s0 s1 s2 IF HF ->
+  Forall (fun f => bytes_ok f = true) IF ->
+  N.of_nat (length IF) = rev_seg_count s1 s2 ->
+  view_try_reverse (assemble ci ch rsv s0 s1 s2 IF HF) = (b', Ok tt) ->
+  exists ci' ch' a c d,
+    let IF' := rev (map toggle_cons_dir IF) in
+    let HF' := rev HF in
+    b' = assemble ci' ch' rsv a c d IF' HF' /\ meta_ok ci' ch' rsv a c d /\ shaped a c d IF' HF'
+    /\ ci' < N.of_nat (length IF') /\ ch' < N.of_nat (length HF')
+    /\ nth (N.to_nat ch') HF' [] = nth (N.to_nat ch) HF []
+    /\ if_segid (nth (N.to_nat ci') IF' []) = if_segid (nth (N.to_nat ci) IF [])
+    /\ if_ts (nth (N.to_nat ci') IF' []) = if_ts (nth (N.to_nat ci) IF [])
+    /\ if_cons_dir (nth (N.to_nat ci') IF' []) = negb (if_cons_dir (nth (N.to_nat ci) IF []))
+    /\ beta_used ci' ch' IF' HF' true = if_segid (nth (N.to_nat ci) IF []).
+Proof.
+  intros Hm Hs HbI Hcnt H.
+  destruct (view_reverse_cases _ _ _ _ _ _ _ _ Hm Hs) as [[e He]|(a & c & d & E & H0 & Hch & Hci & Hfit & Hr)].
+  { rewrite He in H. discriminate. }
+  rewrite Hr in H. injection H as <-.
+  assert (Hrc : rev_seg_count s1 s2 <= 3) by (unfold rev_seg_count; destruct (s1 =? 0); [|destruct (s2 =? 0)]; lia).
+  assert (Hm' : meta_ok (rev_seg_count s1 s2 - ci - 1) (s0 + s1 + s2 - ch - 1) rsv a c d).
+  { unfold meta_ok in Hm. apply (rev_lens_ok ci ch rsv s0 s1 s2 a c d _ _ E Hm); lia. }
+  assert (Hs' : shaped a c d (rev (map toggle_cons_dir IF)) (rev HF)).
+  { apply (shaped_rev s0 s1 s2); auto.
+    - apply (rev_lens_nz _ _ _ _ _ _ E). - apply (rev_lens_sum _ _ _ _ _ _ E). }
+  pose proof (sh_hf_cnt _ _ _ _ _ Hs) as Hn.
+  exists (rev_seg_count s1 s2 - ci - 1), (s0 + s1 + s2 - ch - 1), a, c, d. cbv zeta.
+  assert (Hinfo : nth (N.to_nat (rev_seg_count s1 s2 - ci - 1)) (rev (map toggle_cons_dir IF)) []
+                  = toggle_cons_dir (nth (N.to_nat ci) IF [])).
+  { rewrite rev_nth by (rewrite map_length; lia). rewrite map_length.
+    replace (length IF - S (N.to_nat (rev_seg_count s1 s2 - ci - 1)))%nat with (N.to_nat ci) by lia.
+    rewrite (nth_indep _ [] (toggle_cons_dir [])) by (rewrite map_length; lia). apply map_nth. }
+  assert (Hhop : nth (N.to_nat (s0 + s1 + s2 - ch - 1)) (rev HF) [] = nth (N.to_nat ch) HF []).
+  { rewrite rev_nth by lia. f_equal. lia. }
+  assert (Hli : length (nth (N.to_nat ci) IF []) = 8%nat).
+  { pose proof (sh_if_len _ _ _ _ _ Hs) as Ha. unfold all_len in Ha. rewrite Forall_forall in Ha. apply Ha, nth_In. lia. }
+  destruct (toggle_fields _ Hli (Forall_nth_ok IF (N.to_nat ci) HbI)) as (T1 & T2 & T3).
+  refine (conj eq_refl (conj Hm' (conj Hs' (conj _ (conj _ (conj Hhop _)))))).
+  - rewrite rev_length, map_length. lia.
+  - rewrite rev_length. lia.
+  - rewrite Hinfo. refine (conj T1 (conj T2 (conj T3 _))).
+    unfold beta_used. rewrite Hinfo. cbn [orb]. exact T1.
+Qed.
